@@ -24,6 +24,8 @@ THEOREMS = [
     # Chou-Orlandi in an abstract group (Model/Co.lean)
     "Mpc.C06_co_masks_agree",
     "Mpc.C06_co_delivers",
+    # COT over IKNP over Chou-Orlandi base OTs
+    "Mpc.C06_iknp_over_co",
     # RSA OT over Nat/Int arithmetic (Model/RsaOt.lean)
     "Mpc.C06_rsa_key_recovered",
     "Mpc.C06_rsa_delivers",
@@ -64,6 +66,7 @@ def run(ctx):
     source_facts(ctx)
     quick = ctx.tier == "quick"
     n_iknp, n_cot, n_proto = (112, 48, 16) if quick else (320, 200, 60)
+    n_cob = 18 if quick else 90
     seeds = [ctx.seed] if quick else [ctx.seed, ctx.seed + 1000, ctx.seed + 2000]
     if ctx.build_hx():
         for s in seeds:
@@ -75,6 +78,11 @@ def run(ctx):
             ctx.absorb_meta(meta)
             ctx.correspond("COT/ROT transcripts and outputs, MITCCRH.Hash byte-exact (seed %d)" % s, ops, out)
             distinct_ops(ctx, ops)
+            ops, out, meta = ctx.run_hx("co-bytes", n_cob, seed=s)
+            ctx.absorb_meta(meta)
+            ctx.correspond("Chou-Orlandi ot.CO on P-256: both wire byte streams and the receiver's labels byte-exact "
+                           "(seed %d)" % s, ops, out)
+            distinct_ops(ctx, ops)
             ops, out, meta = ctx.run_hx("proto", n_proto, seed=s)
             ctx.absorb_meta(meta)
         c = ctx.coverage.get("counters", {})
@@ -84,6 +92,9 @@ def run(ctx):
                ["cot_n_mod%d_%s" % (m, t) for m in (8, 64, 128, 512) for t in ("0", "p1", "m1")] + \
                ["iknp_chunks_5", "cot_chunks_5", "iknp_kind_L", "iknp_kind_M", "iknp_kind_B",
                 "iknp_cases_repeated_batches", "cot_cases_repeated_batches", "cot_reinit",
+                "cobytes_random", "cobytes_reject", "cobytes_equal-scalars", "cobytes_zero-b-choice1",
+                "cobytes_zero-b-choice0", "cobytes_zero-a", "cobytes_small-scalars", "cobytes_error_runs",
+                "oracle_cobytes_batches",
                 "oracle_co_batches", "oracle_cohelpers_batches", "oracle_coxfer_batches", "oracle_rsa_batches",
                 "oracle_rsaxfer_batches", "oracle_cot_over_co_batches", "oracle_rot_over_co_batches"] + \
                ["cot_kind_%s_mal_%s_shared_%s" % (k, m, sh) for k in "cr" for m in ("true", "false")
@@ -106,7 +117,7 @@ def run(ctx):
         if ctx.broken and not [f for f in ctx.fails if not ctx.is_known(f)]:
             # widened search for a concrete failing input (oracle only)
             for s in range(ctx.seed + 7000, ctx.seed + 7004):
-                for mode, n in (("iknp", 400), ("cot", 300), ("proto", 40)):
+                for mode, n in (("iknp", 400), ("cot", 300), ("co-bytes", 60), ("proto", 40)):
                     ops, out, meta = ctx.run_hx(mode, n, seed=s, tag="-widen")
                     ctx.absorb_meta(meta, prefix="widen_")
                 if [f for f in ctx.fails if not ctx.is_known(f)]:
@@ -116,14 +127,18 @@ def run(ctx):
         "sizes biased to k*m+{-1,0,1}, m in {8,64,128,512}, up to 4*512+1; 1-4 calls per initialised pair mixing "
         "label / malicious-label / packed-bit forms; choices all-0, all-1, random, alternating, tail-only; random "
         "and extreme Delta; base OT ideal (deterministic) or real Chou-Orlandi; transports ot.Pipe and p2p.Pipe; "
-        "COT/ROT x malicious x shared with re-initialisation between batches. distinct = distinct op lines "
+        "COT/ROT x malicious x shared with re-initialisation between batches. co-bytes mode: ot.CO sessions of 1-2 "
+        "batches of 1-4 transfers (8-64 in thorough) over p2p.Conn on a recording hxlib.Duplex with tape-drawn scalars, "
+        "incl. a rejected crypto/rand.Int candidate, receiver scalar = sender scalar (doubling, infinity as mask point), "
+        "scalar 0 with choice 1, and the rejected encodings of the point at infinity (scalar 0 with choice 0, sender "
+        "scalar 0). distinct = distinct op lines "
         "(each is a full tape + batch list). proto mode (oracle only): CO protocol, CO helpers on P-256/224/384/521, "
         "CO and RSA single-transfer APIs, RSA protocol (1024/1536/2048-bit keys), COT/ROT over real CO; thorough tier records a probe of COT over an RSA base (role inversion, evidence "
         "only).")
     ctx.assumptions += [
         "the block cipher / PRG is an arbitrary function in every theorem; Lean AES only matters for the byte-exact comparison",
         "IKNP theorems are relative to BaseOK (the 128 base OTs delivered the keys selected by Delta); base OT correctness is the CO / RSA part of this property",
-        "Chou-Orlandi: crypto/elliptic is trusted to implement a commutative group with scalar multiplication; the theorem is in an abstract group and excludes the point-at-infinity encodings (probability ~2^-256 on P-256); no Lean model of P-256",
+        "Chou-Orlandi: the theorems are in an abstract commutative group and exclude the point-at-infinity encodings (probability ~2^-256 on P-256); that P-256 (crypto/elliptic, and its Lean re-implementation Model/P256.lean executed for the byte-exact comparison) is such a group is trusted, not proved",
         "RSA: crypto/rsa keys are trusted to satisfy (k^e)^d = k mod N; math/big Exp with a negative base is modelled as Euclidean (non-negative) reduction; PKCS#1 block type 1 pad/unpad round trip is a hypothesis of the theorem",
         "malicious mode: only honest runs are covered here (the consistency check itself is C15); its messages seed2/x/t0/t1 are not compared with a model",
         "packed-bit form is run on zeroed result buffers (SendBits/ReceiveBits OR into the caller's buffer)",
@@ -133,8 +148,10 @@ def run(ctx):
         "Theorems (Props/C06.lean): IKNP label form received_i = sent_i xor choice_i*Delta for every n, every PRG "
         "stream family and every sequence of calls with the per-column stream positions as explicit state; "
         "createLabels is the bit-matrix transpose; packed-bit form r_j = s_j xor (Delta.Bit(0) and c_j) for every n "
-        "(the pre-564d319 word count is kept as receiveBitsOld with its negation theorem); COT/ROT deliver for every batch size and every MITCCRH cipher; CO masks agree in every commutative "
-        "group; RSA OT recovers the blinding key. Tie: real IKNP sender/receiver, COT, ROT, MITCCRH run with "
+        "(the pre-564d319 word count is kept as receiveBitsOld with its negation theorem); COT/ROT deliver for every batch size and every MITCCRH cipher; CO masks agree and the HEAD helpers deliver in every commutative group, COT over IKNP over CO base OTs (roles reversed) delivers (C06_iknp_over_co); "
+        "RSA OT recovers the blinding key. Tie: real IKNP sender/receiver, COT, ROT, MITCCRH run with "
         "deterministic tapes, u-matrix bytes / label vectors / packed words / ciphertexts compared byte for byte with "
-        "the compiled Lean model (Lean AES-CTR/AES). Oracle: receiver's result = sender's label selected by the choice "
+        "the compiled Lean model (Lean AES-CTR/AES); real ot.CO over p2p.Conn vs the same CO model instantiated with "
+        "Lean P-256 + SHA-256: every byte both parties write (curve name, A, B_i, e0/e1 frames) and the receiver's "
+        "labels. Oracle: receiver's result = sender's label selected by the choice "
         "at every position for all five implementations, both adversary modes, shared/non-shared, repeated batches.")
